@@ -19,6 +19,7 @@ import (
 	"go/ast"
 	"go/token"
 	"go/types"
+	"os"
 	"reflect"
 	"sort"
 	"strings"
@@ -1410,9 +1411,13 @@ func (il *inliner) liftAggregates() bool {
 				continue
 			}
 			var fas []*ssa.FieldAddr
+			dbg := os.Getenv("DDCHECK_SROA") != ""
 			for _, r := range *a.Referrers() {
 				fa, ok := r.(*ssa.FieldAddr)
 				if !ok || fa.X != ssa.Value(a) || fa.Referrers() == nil {
+					if dbg {
+						fmt.Fprintf(os.Stderr, "SROA %s: %s not candidate: referrer %T %v\n", il.nf.Name(), a.Name(), r, r)
+					}
 					continue next
 				}
 				for _, u := range *fa.Referrers() {
@@ -1421,6 +1426,9 @@ func (il *inliner) liftAggregates() bool {
 					}
 					if s, ok := u.(*ssa.Store); ok && s.Addr == ssa.Value(fa) && s.Val != ssa.Value(fa) {
 						continue
+					}
+					if dbg {
+						fmt.Fprintf(os.Stderr, "SROA %s: %s not candidate: field use %T %v\n", il.nf.Name(), a.Name(), u, u)
 					}
 					continue next
 				}
@@ -1431,6 +1439,9 @@ func (il *inliner) liftAggregates() bool {
 				fieldOf[fa] = fieldVar{a, fa.Field}
 			}
 		}
+	}
+	if os.Getenv("DDCHECK_SROA") != "" {
+		fmt.Fprintf(os.Stderr, "SROA %s: %d candidates, %d field addresses\n", il.nf.Name(), len(cands), len(fieldOf))
 	}
 	if len(cands) == 0 {
 		return false
